@@ -287,9 +287,11 @@ PROPS = {
                 "(thorough) histories of 3 threads x 4 ops on one shared Arc<KnowledgeBase> with cfg-guarded yield points between lock acquisitions; each history is checked for linearizability "
                 "against the sequential specification by the Coq-defined search KB.lin (real-time order from one atomic counter). non-trivial = at least one rule stored / overlapping operations",
         "level_text": "Proved for every state/op (sequences of any length): duplicate add and every refused op change nothing; version never decreases and grows by one on every successful change; the listing "
-                "is in descending salience in every reachable state; the lock acquisition order read from the source is one global order with `rules` first. The full sequential refinement to the abstract "
-                "specification (lookup = most recently added rule, insertion order among equal saliences) and linearizability of concurrent histories are the Coq-defined monitors KB.ok (exhaustive small scope + random) "
-                "evaluated on the real KnowledgeBase.",
+                "is in descending salience in every reachable state; the lock acquisition order read from the source is one global order with `rules` first. The full sequential refinement is a theorem (Proofs/KBRefineProofs.v, simulation invariant Sim): for EVERY operation "
+                "sequence the model shows, after every operation, exactly what the abstract specification shows (result, listing, lookup of every name, version) - lookup = the stored rule of that name, a duplicate refused "
+                "without effect, listing = every stored rule once by salience descending and insertion order among equals (a strict total order; the code's stable sort of an already sorted vector plus one element is an insertion). "
+                "Linearizability of concurrent histories against that specification is the Coq-defined checker KB.lin evaluated on the real KnowledgeBase under perturbed schedules (a monitor, not a theorem: the interleavings are "
+                "produced by the real threads).",
         "level_note": "Trusted: Coq kernel; model of knowledge_base.rs (method bodies atomic because every method takes all its locks first and holds them to the end - checked syntactically by consts.py); "
                 "std RwLock mutual exclusion; OS scheduler only sampled (partial: thread runtime). Refinement model=spec is checked by the monitor, not yet a theorem. Axioms: none.",
         "trusted_base": ["std::sync::RwLock provides mutual exclusion; Vec::sort_by_key is a stable sort"],
